@@ -25,7 +25,7 @@ def _alpha(cps, lo, hi):
     return ok
 
 
-MARKERS = ("", "WEBVTT", "<SAMI>", "</tt>", "Scenarist_SCC V1.0", "{1}{2}", "1\n", "-->", "{0}{0}", "<sami", "</TT>")
+MARKERS = ("", "WEBVTT", "<SAMI>", "</tt>", "Scenarist_SCC V1.0", "{1}{2}", "1\n", "-->", "{0}{0}", "<sami", "</TT>", "<", "\n<b>", "  ")
 
 
 def _marker(i):
@@ -49,7 +49,13 @@ def _marker(i):
         return MARKERS[8]
     if i == 9:
         return MARKERS[9]
-    return MARKERS[10]
+    if i == 10:
+        return MARKERS[10]
+    if i == 11:
+        return MARKERS[11]
+    if i == 12:
+        return MARKERS[12]
+    return MARKERS[13]
 
 
 def _check(s):
@@ -88,7 +94,7 @@ def detect_short(cps: list[int]) -> str:
 
 def detect_prefixed(cps: list[int], pre_i: int) -> str:
     """
-    pre: _alpha(cps, 0, 2) and 1 <= pre_i < 11
+    pre: _alpha(cps, 0, 2) and 1 <= pre_i < 14
     post: _ == ""
     """
     return _check(_marker(pre_i) + text_of(cps))
@@ -110,9 +116,17 @@ def detect_suffixed1(cps: list[int], post_i: int) -> str:
     return _check(text_of(cps) + _marker(post_i))
 
 
+def detect_markers2(pre_i: int, post_i: int) -> str:
+    """
+    pre: 1 <= pre_i < 14 and 1 <= post_i < 14
+    post: _ == ""
+    """
+    return _check(_marker(pre_i) + _marker(post_i))
+
+
 def detect_marked(cps: list[int], pre_i: int, post_i: int) -> str:
     """
-    pre: _alpha(cps, 0, 1) and 1 <= pre_i < 11 and 1 <= post_i < 11
+    pre: _alpha(cps, 0, 1) and 1 <= pre_i < 14 and 1 <= post_i < 11
     post: _ == ""
     """
     return _check(_marker(pre_i) + text_of(cps) + _marker(post_i))
@@ -257,3 +271,35 @@ def own_output_markup(i: int) -> str:
             return "" if got is reader else "own output not recognised"
         k += 1
     return ""
+
+
+# own output from caption sets with float times (what SCCReader produces) ---------------------------------
+def own_output_float_times(w: int, k: int) -> str:
+    """
+    pre: 0 <= w < 4 and 0 <= k < 3
+    post: _ == ""
+    """
+    t0 = (1301300.0, 33366.666666666664, 2002000.0)[0] if k == 0 else (33366.666666666664 if k == 1 else 2002000.0)
+    cs = CaptionSet({"en-US": CaptionList([Caption(t0, t0 + 1501500.0, [CaptionNode.create_text("hello")]),
+                                           Caption(t0 + 3003000.0, t0 + 4504500.0, [CaptionNode.create_text("bye")])])})
+    if w == 0:
+        writer, reader = SRTWriter(), SRTReader
+    elif w == 1:
+        writer, reader = WebVTTWriter(), WebVTTReader
+    elif w == 2:
+        writer, reader = MicroDVDWriter(), MicroDVDReader
+    else:
+        writer, reader = SCCWriter(), SCCReader
+    out = writer.write(cs)
+    try:
+        got = detect_format(out)
+    except Exception:
+        return "detect_format raised on own output"
+    if got is not reader:
+        return "own output (float times) not recognised"
+    try:
+        back = got().read(out)
+    except Exception:
+        return "own output (float times) not readable"
+    langs = back.get_languages()
+    return "" if len(back.get_captions(langs[0])) == 2 else "cue count"
